@@ -97,4 +97,21 @@ theorem flatMap_getElem_offset {β γ : Type} (f : β → List γ) (l : List β)
       rw [e]
       exact ih i (by simpa using hi) hk
 
+theorem mapM_id_eq_some {β : Type} (l : List (Option β)) (col : List β) (h : l.mapM id = some col) : l = col.map some := by
+  induction l generalizing col with
+  | nil => simp at h; subst h; rfl
+  | cons a as ih =>
+    cases a with
+    | none => simp [List.mapM_cons] at h
+    | some v =>
+      simp only [List.mapM_cons, id, Option.pure_def, Option.bind_eq_bind, Option.bind_some] at h
+      cases hr : as.mapM id with
+      | none => rw [hr] at h; simp at h
+      | some rest =>
+        rw [hr] at h
+        simp at h
+        subst h
+        rw [ih rest hr]
+        rfl
+
 end IrisVerif.AD
